@@ -19,7 +19,7 @@ LEVEL = "exploration"
 BUDGET = {"quick": {"wall_s": 400}, "thorough": {"wall_s": 3000}}
 EXHAUSTIVE = {"quick": True, "thorough": True}
 RULE = ("scenario worlds x 5 operations x every single droppable member and every pair of droppable members locked "
-        "by a foreign process (real fcntl F_SETLK write lock held by a helper process) x {default, --no-lock}; plus "
+        "by a foreign process (real fcntl F_SETLK write lock, or read lock, held by a helper process) x {default, --no-lock}; plus "
         "the same choices with F_SETLK failing at the seam (EAGAIN / EACCES) instead of a real holder; thorough adds "
         "seeded worlds. non-trivial = at least one locked path is droppable in the lock-free run; distinct = distinct "
         "trace signatures")
@@ -27,14 +27,15 @@ ASSUMPTIONS = [
     "only droppable members are locked (fclones never opens retained files for writing)",
     "serial mode (RAYON_NUM_THREADS=1); the lock-free twin run decides which members are droppable",
 ]
-REAL_VS_STUB = {"foreign lock holder": "real second process holding fcntl write locks (slice 1); errno injected on F_SETLK at the seam (slice 2)"}
+REAL_VS_STUB = {"foreign lock holder": "real second process holding fcntl write or read locks (slice 1); errno injected on F_SETLK at the seam (slice 2)"}
 
 HOLDER = r'''
 import fcntl, os, sys
 fds = []
-for p in sys.argv[1:]:
+kind = fcntl.LOCK_SH if sys.argv[1] == "sh" else fcntl.LOCK_EX
+for p in sys.argv[2:]:
     fd = os.open(os.fsencode(p), os.O_RDWR)
-    fcntl.lockf(fd, fcntl.LOCK_EX | fcntl.LOCK_NB)
+    fcntl.lockf(fd, kind | fcntl.LOCK_NB)
     fds.append(fd)
 sys.stdout.write("ready\n"); sys.stdout.flush()
 sys.stdin.read()
@@ -84,8 +85,10 @@ def gen_cases(tier, seed):
                 subsets = subsets[:12]
             for s in subsets:
                 for nolock in (False, True):
-                    for mode in ("holder", "EAGAIN", "EACCES"):
-                        if nolock and mode == "EACCES":
+                    # "holder-sh": the foreign process holds a shared (read) lock - it conflicts with
+                    # the exclusive lock a process that is about to replace the file has to take
+                    for mode in ("holder", "holder-sh", "EAGAIN", "EACCES"):
+                        if nolock and mode in ("EACCES", "holder-sh"):
                             continue
                         yield {"sc": sc, "op": op, "locked": list(s), "nolock": nolock, "mode": mode,
                                "drop": drop, "n_clean": n_clean}
@@ -107,8 +110,8 @@ def run_case(case):
         drop = [s2b(p) for p in case["drop"]]
         holder = None
         plan = []
-        if case["mode"] == "holder":
-            holder = subprocess.Popen([sys.executable, "-c", HOLDER] + [os.path.join(rd.world, p) for p in case["locked"]],
+        if case["mode"].startswith("holder"):
+            holder = subprocess.Popen([sys.executable, "-c", HOLDER, "sh" if case["mode"] == "holder-sh" else "ex"] + [os.path.join(rd.world, p) for p in case["locked"]],
                                       stdin=subprocess.PIPE, stdout=subprocess.PIPE)
             if holder.stdout.readline().strip() != b"ready":
                 holder.kill()
@@ -188,7 +191,7 @@ def run_case(case):
             "violations": viol,
             "nontrivial": bool(set(locked) & set(drop)),
             "sig": ops.trace_sig(rd, [res.trace], verdict + case["mode"]),
-            "faults": dict(ops.fault_counts([res.trace]), **({"foreign_lock_held": len(locked)} if case["mode"] == "holder" else {})),
+            "faults": dict(ops.fault_counts([res.trace]), **({"foreign_lock_held": len(locked)} if case["mode"].startswith("holder") else {})),
             "probes": {"setlk_calls": len(setlk), "setlk_failed": len([e for e in setlk if e.ret < 0]),
                        "nolock_runs": int(case["nolock"]), "op_" + op: 1},
             "sim_ns": 60 * 10**9,
